@@ -30,7 +30,7 @@ detected=""
 for c in $checks; do
   echo "== check $c against the change"
   out=$(VERIF_OVERLAY=$ov/overlay.json VERIF_BUDGET_S=${SEED_BUDGET:-900} /verif/verif $c 2>&1); rc=$?
-  echo "$out" | grep -A3 "^VIOLATION" | cut -c1-300 | head -12; echo "$out" | grep "^$c tier" 
+  echo "$out" | grep -a -A3 "^VIOLATION" | cut -c1-300 | head -12; echo "$out" | grep -a "^$c tier" 
   echo "exit=$rc"
   [ $rc = 1 ] && detected="$detected $c"
 done
